@@ -173,7 +173,7 @@ func (m *Metadata) UnmarshalBinary(data []byte) error {
 			return err
 		}
 		m.protocols = append(m.protocols, t)
-		read += tLen
+		read = tLen
 	}
 	return m.Validate()
 }
